@@ -106,7 +106,7 @@ func (i *interpreter) global(g *ssa.Global) *value {
 func (e *Engine) initShared() {
 	e.sharedOnce.Do(func() {
 		shared := make(map[*ssa.Global]*value)
-		r := &pathRun{eng: e, ctx: NewTermCtx(), funcs: map[*ssa.Function]*int{}, stubs: map[string]int{}}
+		r := &pathRun{eng: e, ctx: NewTermCtx(), funcs: map[*ssa.Function]*int{}, stubs: map[string]int{}, sites: map[string]int{}}
 		r.setModel(map[string]uint64{})
 		i := newInterpreter(e, r)
 		i.building = true
